@@ -41,9 +41,9 @@ func (ex *Exec) bigFromInt64(t *Term, signed bool) *Term {
 		return t
 	}
 	if signed {
-		return ex.ts.SignExt(t, bigBVWidth)
+		return ex.ts.SignExt(t, ex.bigW)
 	}
-	return ex.ts.ZeroExt(t, bigBVWidth)
+	return ex.ts.ZeroExt(t, ex.bigW)
 }
 
 func (ex *Exec) bigZero() *Term { return ex.bigConst(big.NewInt(0)) }
@@ -174,14 +174,14 @@ func (ex *Exec) bigShift(left bool, x *Term, n *Term) *Term {
 		}
 		return ts.IntBin("div", x, pow)
 	}
-	cnt := ts.ZeroExt(n, bigBVWidth)
+	cnt := ts.ZeroExt(n, ex.bigW)
 	if left {
 		r := ts.BVBin("bvshl", x, cnt)
 		// stated bound: the shifted value must fit (no bits lost)
 		back := ts.BVBin("bvashr", r, cnt)
-		fits := ts.And(ts.Eq(back, x), ts.BVCmp("bvult", cnt, ts.BVConst(bigBVWidth, bigBVWidth-1)))
+		fits := ts.And(ts.Eq(back, x), ts.BVCmp("bvult", cnt, ts.BVConst(ex.bigW, uint64(ex.bigW-1))))
 		if !fits.IsTrue() {
-			ex.assumptions[fmt.Sprintf("big.Int left shifts whose result does not fit %d bits are outside the bound (bv mode)", bigBVWidth)] = true
+			ex.assumptions[fmt.Sprintf("big.Int left shifts whose result does not fit %d bits are outside the bound (bv mode)", ex.bigW)] = true
 			ex.assume(fits, "big Lsh fits")
 		}
 		return r
